@@ -6,9 +6,9 @@ GOENV := GOFLAGS=-mod=mod GOPROXY=off GOSUMDB=off GOTOOLCHAIN=local
 VFILES := $(shell grep '\.v$$' coq/_CoqProject)
 MODEL_DEPS := $(addprefix coq/,$(filter-out Props/% Proofs/%,$(VFILES)))
 
-.PHONY: setup coq coq-target model harness coqchk clean
+.PHONY: setup coq coq-target model harness harness-race coqchk clean
 
-setup: coq model harness
+setup: coq model harness harness-race
 
 $(COQMF): coq/_CoqProject
 	cd coq && coq_makefile -f _CoqProject -o Makefile.coq >/dev/null
@@ -31,6 +31,10 @@ ocaml/model: $(MODEL_DEPS) coq/Extract/Extract.v ocaml/driver.ml $(COQMF)
 # always rebuilt from /repo's current working tree (go's build cache makes this cheap)
 harness:
 	cd harness && cp /repo/go.sum . && $(GOENV) go build -tags verif -o bin/verifharness .
+
+# the same harness with the race detector, for the concurrent family (C18)
+harness-race:
+	cd harness && cp /repo/go.sum . && $(GOENV) go build -race -tags verif -o bin/verifharness-race .
 
 coqchk:
 	cd coq && timeout 3300 coqchk -silent -o -Q . YS $(T)
